@@ -92,7 +92,7 @@ fn expected_rule(class: &str) -> Option<&'static [&'static str]> {
         "relation-vehicle-broken|pinned-vehicle-has-tour" | "relation-vehicle-broken|pinned-vehicle-idle" => &["has jobs assigned to another tour"],
         "arrival-mismatch" => &["arrival time mismatch for"],
         "distance-mismatch" => &["distance mismatch for"],
-        "tour-statistic-mismatch" => &["distance mismatch for tour statistic", "duration mismatch for tour statistic"],
+        "tour-statistic-mismatch" | "tour-statistic-mismatch|consistent-with-overall" => &["distance mismatch for tour statistic", "duration mismatch for tour statistic"],
         "overall-statistic-mismatch" => &["solution statistic mismatch"],
         "load-above-capacity|regular-tour" => &["load exceeds capacity in tour"],
         "load-misreported|regular-tour" => &["load mismatch", "load exceeds capacity in tour"],
@@ -242,11 +242,20 @@ fn mutants(rng: &mut Rng, gp: &PragProblem, parsed: &PProblem, solution: &Value,
             }
         }
         // tour statistic mismatch
+        // (the checker skips the distance part for a tour whose stops all report distance 0 - its workaround for output
+        // without distances - so such tours are a site kind of their own)
+        let all_zero = stops.iter().all(|st| st["distance"].as_i64().unwrap_or(0) == 0);
         for key in ["distance", "duration"] {
             let mut s = solution.clone();
             let v = s["tours"][ti]["statistic"][key].as_i64().unwrap_or(0);
             s["tours"][ti]["statistic"][key] = json!(v + 5);
-            push("tour-statistic-mismatch", format!("tour{ti}/{key}"), None, s, &mut out);
+            let zero_kind = all_zero && key == "distance";
+            push(if zero_kind { "tour-statistic-mismatch|all-stop-distances-zero" } else { "tour-statistic-mismatch" }, format!("tour{ti}/{key}"), None, s.clone(), &mut out);
+            // the same breach without its side effect on the overall statistic (which is the sum of the tours): only the
+            // tour level rule can reject it
+            let o = s["statistic"][key].as_i64().unwrap_or(0);
+            s["statistic"][key] = json!(o + 5);
+            push(if zero_kind { "tour-statistic-mismatch|consistent-with-overall|all-stop-distances-zero" } else { "tour-statistic-mismatch|consistent-with-overall" }, format!("tour{ti}/{key}"), None, s, &mut out);
         }
         // limit breach: the vehicle type's limit lowered just below what this tour uses
         if let Some(veh) = veh {
@@ -572,7 +581,7 @@ fn main() {
     }
     run.floor("valid solutions given to the checker", run.observed("valid_solutions", "accepted") + run.observed("valid_solutions", "rejected"), run.by_tier(30, 300));
     for class in ["load-misreported|regular-tour", "load-above-capacity|regular-tour", "unknown-job", "duplicated-job", "dropped-job", "job-split-over-tours", "job-split-over-tours|other-shift-of-same-vehicle", "assigned-and-unassigned", "arrival-mismatch",
-        "distance-mismatch", "tour-statistic-mismatch", "overall-statistic-mismatch", "limit-breach-distance", "limit-breach-duration", "limit-breach-tour-size",
+        "distance-mismatch", "tour-statistic-mismatch", "tour-statistic-mismatch|consistent-with-overall", "overall-statistic-mismatch", "limit-breach-distance", "limit-breach-duration", "limit-breach-tour-size",
         "relation-order-broken", "relation-vehicle-broken|pinned-vehicle-has-tour", "break-misplaced"] {
         let judged = run.observed("mutants_rejected", class) + run.observed("mutants_accepted", class) + run.observed("mutants_panicked", class);
         run.floor(&format!("mutants of class '{class}' judged"), judged, 3);
